@@ -89,6 +89,12 @@ func (g *gen) buildCall(f *Func, depth int) Expr {
 
 func (g *gen) selectExpr(t *Type, depth int) Expr {
 	if g.f.off("builtin.select") {
+		// (open finding C04-1 concerns the scalar-condition form, emitted as an unparenthesised ?: in MSL;
+		// the vector-condition form is a metal::select(...) call and stays in play)
+		if t.K == TVec && !g.f.off("select.vector-cond") {
+			g.class("select:vector-cond-only")
+			return &Builtin{Name: "select", Args: []Expr{g.expr(t, depth-1), g.expr(t, depth-1), g.expr(Vec(t.N, Bool), depth-1)}, T: t}
+		}
 		return g.leaf(t, depth)
 	}
 	g.class("select")
